@@ -43,7 +43,7 @@ def gen_cases(ctx):
 
     def one(p):
         try:
-            res = run_tlc("Funcs", f"Funcs_{ctx.tier}_{p}.cfg", workers=2, timeout=3000, heap="4g", tag=f"C36-{p}")
+            res = run_tlc("Funcs", f"Funcs_{ctx.tier}_{p}.cfg", workers=1, timeout=3000, heap="4g", tag=f"C36-{p}")
             tlc_must_pass(res, f"Funcs part {p}")
             results[p] = res
         except Exception as e:      # noqa
@@ -212,7 +212,7 @@ def replay(ctx, obj):
 def selftest(ctx):
     """Corrupt the documented value of cases the engine gets right and require every corruption to be
     reported as a violation (not absorbed by a known-finding signature, not lost)."""
-    res = run_tlc("Funcs", "Funcs_quick_d.cfg", workers=2, timeout=1200, heap="4g", tag="C36-self")
+    res = run_tlc("Funcs", "Funcs_quick_d.cfg", workers=1, timeout=1200, heap="4g", tag="C36-self")
     tlc_must_pass(res, "Funcs part d")
     cases = sorted(res.cases, key=lambda c: json.dumps(c, sort_keys=True))
     pick = []
